@@ -50,6 +50,8 @@ def detect_features(wt):
         f.append("boxed")
     if "allocator_api2" in src or "allocator-api2" in notes and "allocator_api2" in src:
         f.append("allocator-api2")
+    if "verif_hooks" in src:
+        f.append("verif_hooks")
     return ",".join(f)
 
 
